@@ -1061,9 +1061,13 @@ func (c *Compiler) writeNodeCopy(_ *node, recv, pname string) error {
 	c.wl("case ", pname, ":")
 	c.wl("r = x.(", pname, ")")
 	c.wl("case *", pname, ":")
-	c.wl("r = *x.(*", pname, ")")
+	c.wl("p := x.(*", pname, ")")
+	c.wl("if p == nil { return nil, inspector.ErrUnsupportedType }")
+	c.wl("r = *p")
 	c.wl("case **", pname, ":")
-	c.wl("r = **x.(**", pname, ")")
+	c.wl("p := x.(**", pname, ")")
+	c.wl("if p == nil || *p == nil { return nil, inspector.ErrUnsupportedType }")
+	c.wl("r = **p")
 	c.wl("default:")
 	c.wl("return nil, inspector.ErrUnsupportedType")
 	c.wl("}")
@@ -1081,9 +1085,13 @@ func (c *Compiler) writeNodeCopyTo(_ *node, recv, pname string) error {
 	c.wl("case ", pname, ":")
 	c.wl("r = src.(", pname, ")")
 	c.wl("case *", pname, ":")
-	c.wl("r = *src.(*", pname, ")")
+	c.wl("p := src.(*", pname, ")")
+	c.wl("if p == nil { return inspector.ErrUnsupportedType }")
+	c.wl("r = *p")
 	c.wl("case **", pname, ":")
-	c.wl("r = **src.(**", pname, ")")
+	c.wl("p := src.(**", pname, ")")
+	c.wl("if p == nil || *p == nil { return inspector.ErrUnsupportedType }")
+	c.wl("r = **p")
 	c.wl("default:")
 	c.wl("return inspector.ErrUnsupportedType")
 	c.wl("}")
@@ -1095,10 +1103,11 @@ func (c *Compiler) writeNodeCopyTo(_ *node, recv, pname string) error {
 	c.wl("case *", pname, ":")
 	c.wl("l = dst.(*", pname, ")")
 	c.wl("case **", pname, ":")
-	c.wl("l = *dst.(**", pname, ")")
+	c.wl("if p := dst.(**", pname, "); p != nil { l = *p }")
 	c.wl("default:")
 	c.wl("return inspector.ErrUnsupportedType")
 	c.wl("}")
+	c.wl("if l == nil { return inspector.ErrUnsupportedType }")
 
 	c.wl("bb:=buf.AcquireBytes()")
 	c.wl("var err error")
